@@ -62,7 +62,7 @@ h_alloc_hs!(c05_alloc_hs__s3_a32, vrt::S3, S33a32);
 // @h props=C05 tier=thorough fuc=Arc::allocate_for_header_and_slice note="zero-sized element"
 h_alloc_hs!(c05_alloc_hs__u32_zst, u32, Z);
 
-// @h props=C05 kind=panic site="unwrap|LayoutError|capacity overflow" fuc=Arc::allocate_for_header_and_slice note="size overflow refused BEFORE allocating (any alloc() is a failed check)"
+// @h props=C05 kind=panic site="unwrap|LayoutError|capacity overflow| in .*allocate_for_header_and_slice" fuc=Arc::allocate_for_header_and_slice note="size overflow refused BEFORE allocating (any alloc() is a failed check)"
 gpanic! { fn c05_alloc_hs_overflow_refused__u16_u32() {
     let len: usize = kani::any();
     // every length whose true block size exceeds isize::MAX
@@ -71,7 +71,7 @@ gpanic! { fn c05_alloc_hs_overflow_refused__u16_u32() {
     let inner = Arc::<HeaderSlice<u16, [u32]>>::allocate_for_header_and_slice(len);
 } }
 
-// @h props=C05 kind=panic site="unwrap|LayoutError|capacity overflow" fuc=Arc::allocate_for_header_and_slice
+// @h props=C05 kind=panic site="unwrap|LayoutError|capacity overflow| in .*allocate_for_header_and_slice" fuc=Arc::allocate_for_header_and_slice
 gpanic! { fn c05_alloc_hs_overflow_refused__a16_a16() {
     let len: usize = kani::any();
     kani::assume((len as u128) * 16 + 32 > isize::MAX as u128 - 15);
@@ -79,7 +79,7 @@ gpanic! { fn c05_alloc_hs_overflow_refused__a16_a16() {
     let inner = Arc::<HeaderSlice<S16a16, [S16a16]>>::allocate_for_header_and_slice(len);
 } }
 
-// @h props=C05 kind=panic site="unwrap|LayoutError|capacity overflow" fuc=UniqueArc::new_uninit_slice,Arc::allocate_for_header_and_slice
+// @h props=C05 kind=panic site="unwrap|LayoutError|capacity overflow| in .*allocate_for_header_and_slice" fuc=UniqueArc::new_uninit_slice,Arc::allocate_for_header_and_slice
 gpanic! { fn c05_new_uninit_slice_overflow_refused() {
     let len: usize = kani::any();
     kani::assume((len as u128) * 8 + 8 > isize::MAX as u128 - 7);
@@ -318,13 +318,13 @@ gproof! { #[kani::unwind(5)] fn c06_arc_from_vec__zst_elements() {
     assert!(unsafe { vrt::ZDROPS } == len && vrt::glive(0));
 } }
 
-// @h props=C06 kind=panic site="Need to think about ZST" fuc=Arc::from_header_and_iter note="zero-sized element type refused up front"
+// @h props=C06 kind=panic site="Need to think about ZST| in .*from_header_and_(iter|slice)" fuc=Arc::from_header_and_iter note="zero-sized element type refused up front"
 gpanic! { fn c06_from_header_and_iter_zst_refused() {
     unsafe { vrt::G_FORBID_ALLOC = true; }
     let a = Arc::from_header_and_iter(1u8, core::iter::empty::<Z>());
 } }
 
-// @h props=C06 kind=panic site="Need to think about ZST" fuc=Arc::from_header_and_slice
+// @h props=C06 kind=panic site="Need to think about ZST| in .*from_header_and_(iter|slice)" fuc=Arc::from_header_and_slice
 gpanic! { fn c06_from_header_and_slice_zst_refused() {
     unsafe { vrt::G_FORBID_ALLOC = true; }
     let a = Arc::from_header_and_slice(1u8, &[Z, Z]);
@@ -410,7 +410,7 @@ gproof! { fn c05_release_after_header_erasure__str() {
 // C07: lying iterators and allocation failure
 // ------------------------------------------------------------------------------------------
 
-// @h props=C07 kind=maypanic bounded=reported,actual<=3 site="expect_failed|ExactSizeIterator (over|under)-reported length" fuc=Arc::from_header_and_iter
+// @h props=C07 kind=maypanic bounded=reported,actual<=3 site="expect_failed|ExactSizeIterator (over|under)-reported length| in .*from_header_and_iter" fuc=Arc::from_header_and_iter
 gmay! { #[kani::unwind(6)] fn c07_from_header_and_iter_lying_len() {
     let (r, a): (usize, usize) = (kani::any(), kani::any());
     kani::assume(r <= 3 && a <= 3 && r != a);
@@ -447,7 +447,7 @@ impl ExactSizeIterator for Fickle {
     }
 }
 
-// @h props=C07,C10 kind=maypanic bounded=lengths<=2 site="expect_failed|ExactSizeIterator (over|under)-reported length|Length needs to be correct" fuc=ThinArc::from_header_and_iter,Arc::into_thin note="len() answers differ between the two calls"
+// @h props=C07,C10 kind=maypanic bounded=lengths<=2 site="expect_failed|ExactSizeIterator (over|under)-reported length|Length needs to be correct| in .*(from_header_and_iter|into_thin)" fuc=ThinArc::from_header_and_iter,Arc::into_thin note="len() answers differ between the two calls"
 gmay! { #[kani::unwind(5)] fn c07_thin_from_iter_fickle_len() {
     let a: usize = kani::any();
     let answers: [usize; 4] = kani::any();
@@ -470,7 +470,7 @@ impl Iterator for LyingHint {
     fn size_hint(&self) -> (usize, Option<usize>) { (self.claim, Some(self.claim)) }
 }
 
-// @h props=C07 kind=maypanic bounded=claim,actual<=3 site="expect_failed|ExactSizeIterator (over|under)-reported length" fuc=Arc::from_iter,UniqueArc::from_iter,IteratorAsExactSizeIterator
+// @h props=C07 kind=maypanic bounded=claim,actual<=3 site="expect_failed|ExactSizeIterator (over|under)-reported length| in .*from_header_and_iter" fuc=Arc::from_iter,UniqueArc::from_iter,IteratorAsExactSizeIterator
 gmay! { #[kani::unwind(6)] fn c07_arc_from_iter_lying_hint() {
     let (claim, actual): (usize, usize) = (kani::any(), kani::any());
     kani::assume(claim <= 3 && actual <= 3 && claim != actual);
@@ -606,7 +606,7 @@ gproof! { #[kani::unwind(8)] fn c06_from_header_and_iter__tr_len6() {
     assert!(vrt::drops() == len + 1 && vrt::gd(1) && vrt::glive(0));
 } }
 
-// @h props=C07 tier=thorough kind=maypanic bounded=reported,actual<=5 site="expect_failed|ExactSizeIterator (over|under)-reported length" fuc=Arc::from_header_and_iter
+// @h props=C07 tier=thorough kind=maypanic bounded=reported,actual<=5 site="expect_failed|ExactSizeIterator (over|under)-reported length| in .*from_header_and_iter" fuc=Arc::from_header_and_iter
 gmay! { #[kani::unwind(8)] fn c07_from_header_and_iter_lying_len5() {
     let (r, a): (usize, usize) = (kani::any(), kani::any());
     kani::assume(r <= 5 && a <= 5 && r != a && (if r > a { r - a } else { a - r }) <= 2);
